@@ -110,6 +110,21 @@ def run_driver(config="dev", repo=None, tag=None):
             head = fh.read(400)
         if nonce not in head:
             raise DriverError("stale fact file (nonce mismatch) for config %s" % config)
+        if tag is None:
+            # checks of different properties may run at the same time: the next run for this configuration wipes `out` as soon as
+            # we release the lock, possibly before our caller has read the file.  Hand out a private copy (made under the lock).
+            priv_dir = os.path.join(WORK, "facts-run")
+            os.makedirs(priv_dir, exist_ok=True)
+            now = time.time()
+            for old in glob.glob(os.path.join(priv_dir, "*.json")):
+                try:
+                    if now - os.path.getmtime(old) > 1800:
+                        os.remove(old)
+                except OSError:
+                    pass
+            priv = os.path.join(priv_dir, "%s-%d-%s.json" % (config, os.getpid(), nonce[:8]))
+            shutil.copyfile(chosen, priv)
+            chosen = priv
         return chosen, dt
     finally:
         fcntl.flock(lock, fcntl.LOCK_UN)
